@@ -1,7 +1,7 @@
 """C04 - geometry -> TOUGH2 grid.  Rules TWIN, PRED, DIM."""
 import ast
 import copy
-from ..core import AnalysisError, norm, dotted, call_name, walk_no_nested, Folder, TOP as FTOP
+from ..core import parent_map, AnalysisError, norm, dotted, call_name, walk_no_nested, Folder, TOP as FTOP
 from ..formula import compare, canon
 from ..dim import DimEval, V, TOP, POS, LEN, AREA, VOL, NUM, require
 from .pred_common import rule_pred
@@ -249,6 +249,19 @@ def rule_twin(run):
         # no-atmosphere case skips the connection on both sides
         gcont = any(isinstance(s, ast.Continue) for n in ast.walk(gi[0]) if isinstance(n, ast.If) for s in n.orelse)
         tcont = any(isinstance(s, ast.Continue) for n in ast.walk(ti[0]) if isinstance(n, ast.If) for s in n.orelse)
+        if not tcont:
+            # the same through a default: `aboveblk = None` before the switch and the connection built under `if aboveblk is not None:`
+            cons_ = [c_ for c_ in ast.walk(tv[0]) if isinstance(c_, ast.Call) and isinstance(c_.func, ast.Name) and c_.func.id == 't2connection']
+            pm_ = parent_map(tv[0])
+            for c_ in cons_:
+                cur_ = c_
+                while cur_ in pm_:
+                    cur_ = pm_[cur_]
+                    if isinstance(cur_, ast.If) and isinstance(cur_.test, ast.Compare) and len(cur_.test.ops) == 1 and isinstance(cur_.test.ops[0], ast.IsNot) \
+                       and isinstance(cur_.test.comparators[0], ast.Constant) and cur_.test.comparators[0].value is None and isinstance(cur_.test.left, ast.Name) \
+                       and any(isinstance(a_, ast.Assign) and norm(a_.targets[0]) == cur_.test.left.id and isinstance(a_.value, ast.Constant) and a_.value.value is None
+                               for a_ in ast.walk(tv[0])):
+                        tcont = True
         gsw = any(isinstance(n, ast.If) and n is not gi[0] and 'atmosphere_type' in norm(n.test) for n in ast.walk(gi[0]))
         tsw = any(isinstance(n, ast.If) and n is not ti[0] and 'atmosphere_type' in norm(roles.inline_locals(n.test, tv[0].body)) for n in ast.walk(ti[0]))
         if not (gsw and tsw):
